@@ -61,6 +61,10 @@ func ValidatePreparedProof(
 		return false
 	}
 
+	if ppBlockRef.InstanceId() != pBlockRef.InstanceId() {
+		return false
+	}
+
 	ppBlockHeight := ppBlockRef.BlockHeight()
 
 	if ppBlockHeight != targetHeight {
